@@ -3,7 +3,7 @@
    stay the extracted inductive types. *)
 From Coq Require Import Extraction ExtrOcamlBasic.
 From Coq Require Import ZArith NArith List.
-From StarV Require Import Params Bytes Keccak Strobe Fp PolyDefs Shamir Adss Star Ggm Scenario.
+From StarV Require Import Params Bytes Keccak Strobe Fp PolyDefs Shamir Adss Star Ggm Wasm Scenario.
 Extraction Language OCaml.
 Extraction "../ocaml/model.ml"
   N.of_nat N.to_nat Z.of_N Z.to_N N.add N.mul Nat.add Nat.mul
@@ -19,4 +19,5 @@ Extraction "../ocaml/model.ml"
   Star.wasm_material Star.message_to_bytes Star.message_from_bytes Star.parse_payload
   Scenario.sharks_deal Scenario.decode_shares Scenario.adss_shares Scenario.adss_recover Scenario.adss_coeffs
   Ggm.ginit Ggm.input_bits Scenario.ggm_run Scenario.ggm_step
+  Wasm.b64_encode Wasm.b64_decode Scenario.wasm_create Scenario.wasm_group Scenario.agg_run
   Scenario.star_scenario Scenario.star_recover_from Scenario.star_derive.
